@@ -30,6 +30,7 @@ GENERATORS = {
     "Small_gen": "translator.gen_small",
     "RewriterTable_gen": "translator.gen_rewriter",
     "TryRoute_gen": "translator.gen_tryroute",
+    "MultiFactShape_gen": "translator.gen_mfshape",
 }
 
 
